@@ -100,8 +100,10 @@ def parseAcceptVerdict (H : Hashes) (b : Bytes) (secret rqauth : Option Bytes) (
   else if m.macInvalid != expectMacInvalid H b secret rqauth then "bad message-authenticator-verdict"
   else "bad message-not-faithful-to-packet"
 
-/-- serialisation may fail only when the message would exceed the 4096-octet maximum -/
-def serializeFailOk (m : Msg) : Bool := 20 + (m.attrs.map fun a => 2 + a.v.length).sum > 4096
+/-- serialisation may fail only when the message would exceed the 4096-octet maximum, or when it holds a
+    Message-Authenticator attribute that is not 16 octets long (no valid one can be computed in place) -/
+def serializeFailOk (m : Msg) : Bool :=
+  20 + (m.attrs.map fun a => 2 + a.v.length).sum > 4096 || m.attrs.any fun a => a.t = 80 && a.v.length != 16
 
 def needsMsgAuthFirst (c : UInt8) : Bool := c = 1 || c = 2 || c = 3 || c = 11 || c = 12 || c = 42 || c = 45
 
